@@ -877,6 +877,60 @@ Proof.
   - destruct (extract_vp9_config d); reflexivity.
 Qed.
 
+(** * The stored configuration versus the contract's [params_fit]: the parameter sets the writer stores
+      ([extract_config] of the first accepted key frame) are the first units of each parameter-set type of
+      the declarative split, so the model's finish-time guard [param_sets_too_long] is the negation of
+      [params_fit] *)
+Lemma find_filter_c {A} (p q : A -> bool) l : find p (filter q l) = find (fun x => q x && p x) l.
+Proof.
+  induction l as [|x l IH]; [reflexivity|].
+  cbn [filter find]. destruct (q x); cbn [find andb]; [destruct (p x); [reflexivity | exact IH] | exact IH].
+Qed.
+
+Lemma find_ext_c {A} (p q : A -> bool) l : (forall x, p x = q x) -> find p l = find q l.
+Proof.
+  intros H. induction l as [|x l IH]; [reflexivity|]. cbn [find]. rewrite H, IH. reflexivity.
+Qed.
+
+Lemma first_of_h264_c t d :
+  first_of (fun n => h264_nal_type n =? t) (filter nonempty (nal_iter d)) =
+  first_unit_c (fun b => b mod 32 =? t) d.
+Proof.
+  unfold first_of, first_unit_c. rewrite find_filter_c, nal_iter_is_spec_units.
+  apply find_ext_c. intros [|b u]; [reflexivity|].
+  unfold nonempty, h264_nal_type. rewrite band31. reflexivity.
+Qed.
+
+Lemma first_of_hevc_c t d :
+  first_of (fun n => hevc_nal_type n =? t) (filter nonempty (nal_iter d)) =
+  first_unit_c (fun b => (b / 2) mod 64 =? t) d.
+Proof.
+  unfold first_of, first_unit_c. rewrite find_filter_c, nal_iter_is_spec_units.
+  apply find_ext_c. intros [|b u]; [reflexivity|].
+  unfold nonempty, hevc_nal_type. rewrite hevc_ty. reflexivity.
+Qed.
+
+Lemma params_fit_extract codec d c :
+  extract_config codec d = Some c -> negb (param_sets_too_long (Some c)) = params_fit codec d.
+Proof.
+  destruct codec; cbn [extract_config params_fit]; intros H.
+  - unfold extract_avc_config in H. destruct d as [|x d']; [discriminate|].
+    rewrite !first_of_h264_c in H.
+    destruct (first_unit_c (fun b => b mod 32 =? 7) (x :: d')) as [sp|]; [|discriminate H].
+    destruct (first_unit_c (fun b => b mod 32 =? 8) (x :: d')) as [pp|]; [|discriminate H].
+    cbn [opt_map] in H. inversion H; subst c.
+    cbn [param_sets_too_long unit_fits avc_sps avc_pps]. unfold U16MAX. lia.
+  - unfold extract_hevc_config in H. destruct d as [|x d']; [discriminate|].
+    rewrite !first_of_hevc_c in H.
+    destruct (first_unit_c (fun b => (b / 2) mod 64 =? 32) (x :: d')) as [vp|]; [|discriminate H].
+    destruct (first_unit_c (fun b => (b / 2) mod 64 =? 33) (x :: d')) as [sp|]; [|discriminate H].
+    destruct (first_unit_c (fun b => (b / 2) mod 64 =? 34) (x :: d')) as [pp|]; [|discriminate H].
+    cbn [opt_map] in H. inversion H; subst c.
+    cbn [param_sets_too_long unit_fits hevc_vps hevc_sps hevc_pps]. unfold U16MAX. lia.
+  - destruct (extract_av1_config d); [|discriminate]. inversion H; subst c. reflexivity.
+  - destruct (extract_vp9_config d); [|discriminate]. inversion H; subst c. reflexivity.
+Qed.
+
 (** * VP9 key-frame pattern *)
 Lemma bit_of_shr b k : (band (shr b k) 1 =? 0) = negb (N.testbit b k).
 Proof.
@@ -1030,7 +1084,7 @@ Lemma push_video_ok w vrev vlast cfg pts dts d key :
   len (convert_video (w_codec w) d) <= U32MAX ->
   exists w', push_video w vrev vlast cfg pts dts d key = inl w' /\
     w_vprev w' = Some dts /\ w_audio w' = w_audio w /\ w_codec w' = w_codec w /\
-    w_aprev w' = w_aprev w /\ w_finalized w' = w_finalized w.
+    w_aprev w' = w_aprev w /\ w_finalized w' = w_finalized w /\ w_vconfig w' = cfg.
 Proof.
   intros H. unfold push_video.
   replace (U32MAX <? len (convert_video (w_codec w) d)) with false by lia.
@@ -1047,7 +1101,11 @@ Lemma wvs_cases w pts dts d key :
       | None => key = true /\ is_some (extract_config (w_codec w) d) = true
       end /\
       w_vprev w' = Some dts /\ w_audio w' = w_audio w /\ w_codec w' = w_codec w /\
-      w_aprev w' = w_aprev w /\ w_finalized w' = w_finalized w
+      w_aprev w' = w_aprev w /\ w_finalized w' = w_finalized w /\
+      match w_vprev w with
+      | Some _ => w_vconfig w' = w_vconfig w
+      | None => w_vconfig w' = extract_config (w_codec w) d
+      end
   | inr e =>
       (e = AlreadyFinalized /\ w_finalized w = true) \/
       (e = DurationOverflow /\ cts_fits pts dts = false) \/
@@ -1067,12 +1125,12 @@ Proof.
     destruct (U32MAX <? dts - prev) eqn:E2.
     { right; right; right; left. split; [reflexivity|]. exists prev. split; [reflexivity|lia]. }
     destruct (push_video_ok w (set_last_dur (w_vrev w) (dts - prev)) (Some (dts - prev)) (w_vconfig w)
-                pts dts d key HL) as (w' & -> & H1 & H2 & H3 & H4 & H5).
+                pts dts d key HL) as (w' & -> & H1 & H2 & H3 & H4 & H5 & H6).
     repeat split; try assumption; try congruence; lia.
   - destruct key; cbn [negb]; [|right; right; right; right; left; auto].
     destruct (extract_config (w_codec w) d) as [c|] eqn:Ex.
     + destruct (push_video_ok w (w_vrev w) (w_vlast_delta w) (Some c) pts dts d true HL)
-        as (w' & -> & H1 & H2 & H3 & H4 & H5).
+        as (w' & -> & H1 & H2 & H3 & H4 & H5 & H6).
       repeat split; try assumption; congruence.
     + right; right; right; right; right. auto.
 Qed.
@@ -1088,7 +1146,7 @@ Lemma was_cases w pts d track :
       end /\
       valid_audio track d = true /\
       w_aprev w' = Some pts /\ w_vprev w' = w_vprev w /\ w_audio w' = w_audio w /\
-      w_codec w' = w_codec w /\ w_finalized w' = w_finalized w
+      w_codec w' = w_codec w /\ w_finalized w' = w_finalized w /\ w_vconfig w' = w_vconfig w
   | inr e =>
       (e = AlreadyFinalized /\ w_finalized w = true) \/
       (e = NonIncreasingTimestamp /\ exists prev, w_aprev w = Some prev /\ (pts <? prev) = true) \/
@@ -1168,7 +1226,9 @@ Definition abs_csum (m : muxer) : csum :=
      c_last_vtick := w_vprev (m_writer m);
      c_first_vpts := m_first_vpts m;
      c_last_apts := m_last_apts m; c_last_atick := w_aprev (m_writer m);
-     c_curv := m_cur_vpts m; c_cura := m_cur_apts m |}.
+     c_curv := m_cur_vpts m; c_cura := m_cur_apts m;
+     (* the finish-time guard of the model on the STORED configuration *)
+     c_params_fit := negb (param_sets_too_long (w_vconfig (m_writer m))) |}.
 
 Definition opt_finite (o : option f64) : Prop :=
   match o with Some p => is_finite p = true | None => True end.
@@ -1189,15 +1249,19 @@ Record Rep (b : builder) (m : muxer) : Prop := mkRep {
              end;
   rep_cura : canon (m_cur_apts m) }.
 
-Definition vupd (s : csum) (pts dts : f64) (explicit : bool) (curv : f64) : csum :=
-  {| c_closed := c_closed s; c_vcount := c_vcount s + 1; c_last_vpts := Some pts;
+Definition vupd (b : builder) (s : csum) (pts dts : f64) (explicit : bool) (curv : f64) (d : bytes) : csum :=
+  {| c_params_fit := match c_last_vtick s with
+                     | None => params_fit (match b_video b with Some (c, _, _) => c | None => H264 end) d
+                     | Some _ => c_params_fit s
+                     end;
+     c_closed := c_closed s; c_vcount := c_vcount s + 1; c_last_vpts := Some pts;
      c_last_vdts := if explicit then Some dts else c_last_vdts s;
      c_last_vtick := Some (tick dts);
      c_first_vpts := match c_first_vpts s with None => Some pts | x => x end;
      c_last_apts := c_last_apts s; c_last_atick := c_last_atick s; c_curv := curv; c_cura := c_cura s |}.
 
 Definition aupd (s : csum) (pts : f64) (cura : f64) : csum :=
-  {| c_closed := c_closed s; c_vcount := c_vcount s; c_last_vpts := c_last_vpts s; c_last_vdts := c_last_vdts s;
+  {| c_params_fit := c_params_fit s; c_closed := c_closed s; c_vcount := c_vcount s; c_last_vpts := c_last_vpts s; c_last_vdts := c_last_vdts s;
      c_last_vtick := c_last_vtick s; c_first_vpts := c_first_vpts s;
      c_last_apts := Some pts; c_last_atick := Some (tick pts); c_curv := c_curv s; c_cura := cura |}.
 
@@ -1209,7 +1273,8 @@ Proof. unfold mem, nb. destruct c; cbn [existsb negb andb]; [reflexivity| apply 
 
 Ltac codes := unfold P_NotFinished, P_AudioConfigured, P_NonEmpty, P_FinitePts, P_NonNegPts, P_FiniteDts,
   P_NonNegDts, P_VideoPtsIncreasing, P_DecodeOrder, P_GapFits32, P_CtsFits32, P_FirstKey, P_FirstConfig,
-  P_AudioNonDecreasing, P_AudioNotBeforeVideo, P_ValidAudioFraming, P_DimsFit16, P_FileFits32, P_SinkOk in *.
+  P_AudioNonDecreasing, P_AudioNotBeforeVideo, P_ValidAudioFraming, P_DimsFit16, P_FileFits32, P_SinkOk,
+  P_ParamSetsFit16 in *.
 
 
 Ltac rw_all :=
@@ -1274,7 +1339,7 @@ Lemma video_core b m pts dts (explicit : bool) x d' key :
   match write_video_sample_with_dts (m_writer m) (tick pts) (tick dts) (x :: d') key with
   | inl w' =>
       v = [] /\
-      abs_csum (set_video_ok m w' pts (if explicit then Some dts else None)) = vupd s pts dts explicit (c_curv s) /\
+      abs_csum (set_video_ok m w' pts (if explicit then Some dts else None)) = vupd b s pts dts explicit (c_curv s) (x :: d') /\
       Rep b (set_video_ok m w' pts (if explicit then Some dts else None))
   | inr e => forall idx, existsb (fun n => mem n v) (err_names (convert_mp4_error e idx)) = true
   end.
@@ -1287,7 +1352,7 @@ Proof.
   pose proof (has_config_extract (m_codec m) (x :: d') ltac:(discriminate)) as Hcfg.
   rewrite <- Hwc in Hcfg.
   destruct (write_video_sample_with_dts (m_writer m) (tick pts) (tick dts) (x :: d') key) as [w'|e].
-  - destruct W as (W1 & W2 & W3 & W4 & W5 & W6 & W7 & W8).
+  - destruct W as (W1 & W2 & W3 & W4 & W5 & W6 & W7 & W8 & W9).
     split; [|split].
     + unfold video_pre. rewrite Hcodec. 
       cbn [abs_csum c_closed c_vcount c_last_vpts c_last_vdts c_last_vtick c_first_vpts c_last_apts
@@ -1297,8 +1362,19 @@ Proof.
       * destruct W3 as [W3 W3']. rewrite <- Hwc, Hcfg. destruct explicit; rw_all; reflexivity.
     + unfold abs_csum, vupd, set_video_ok. cbn [m_writer m_vcount m_last_vpts m_last_vdts m_first_vpts
         m_last_apts m_cur_vpts m_cur_apts c_closed c_vcount c_last_vpts c_last_vdts c_last_vtick c_first_vpts
-        c_last_apts c_last_atick c_curv c_cura].
-      rewrite W4, W7, W8. destruct explicit; reflexivity.
+        c_last_apts c_last_atick c_curv c_cura c_params_fit].
+      rewrite W4, W7, W8, Hcodec.
+      assert (Hpf : negb (param_sets_too_long (w_vconfig w')) =
+                    match w_vprev (m_writer m) with
+                    | Some _ => negb (param_sets_too_long (w_vconfig (m_writer m)))
+                    | None => params_fit (m_codec m) (x :: d')
+                    end).
+      { destruct (w_vprev (m_writer m)) as [prev|].
+        - rewrite W9. reflexivity.
+        - destruct W3 as [_ W3']. rewrite W9. rewrite Hwc in *.
+          destruct (extract_config (m_codec m) (x :: d')) as [c|] eqn:Ex; [|discriminate W3'].
+          apply params_fit_extract. exact Ex. }
+      rewrite Hpf. destruct explicit; reflexivity.
     + constructor; unfold set_video_ok; cbn [m_writer m_codec m_video m_audio m_finished m_last_vpts
         m_last_vdts m_first_vpts m_last_apts m_cur_apts]; try assumption; try congruence.
       * intros F. rewrite W8. apply Hf, F.
@@ -1322,7 +1398,7 @@ Lemma write_video_contract b m pts d key m' r :
   let s := abs_csum m in
   let v := video_pre b s pts pts false d key in
   match r with
-  | None => v = [] /\ abs_csum m' = vupd s pts pts false (c_curv s) /\ Rep b m'
+  | None => v = [] /\ abs_csum m' = vupd b s pts pts false (c_curv s) d /\ Rep b m'
   | Some e => existsb (fun n => mem n v) (err_names e) = true /\ m' = m
   end.
 Proof.
@@ -1350,7 +1426,7 @@ Lemma write_video_with_dts_contract b m pts dts d key m' r :
   let s := abs_csum m in
   let v := video_pre b s pts dts true d key in
   match r with
-  | None => v = [] /\ abs_csum m' = vupd s pts dts true (c_curv s) /\ Rep b m'
+  | None => v = [] /\ abs_csum m' = vupd b s pts dts true (c_curv s) d /\ Rep b m'
   | Some e => existsb (fun n => mem n v) (err_names e) = true /\ m' = m
   end.
 Proof.
@@ -1423,7 +1499,7 @@ Proof.
   assert (HL' : len (x :: d') <= U32MAX) by (unfold U32MAX; lia).
   pose proof (was_cases (m_writer m) (tick pts) (x :: d') a Hb HL' Hwa' Hnc) as W.
   destruct (write_audio_sample (m_writer m) (tick pts) (x :: d')) as [w'|e].
-  - destruct W as (W1 & W2 & W3 & W4 & W5 & W6 & W7 & W8).
+  - destruct W as (W1 & W2 & W3 & W4 & W5 & W6 & W7 & W8 & W9).
     inversion Hw; subst m' r. split; [|split].
     + cbn [abs_csum c_closed c_vcount c_last_vpts c_last_vdts c_last_vtick c_first_vpts c_last_apts
        c_last_atick c_curv c_cura].
@@ -1432,8 +1508,8 @@ Proof.
       * rw_all. reflexivity.
     + unfold abs_csum, aupd. cbn [m_writer m_vcount m_last_vpts m_last_vdts m_first_vpts
         m_last_apts m_cur_vpts m_cur_apts c_closed c_vcount c_last_vpts c_last_vdts c_last_vtick c_first_vpts
-        c_last_apts c_last_atick c_curv c_cura].
-      rewrite W4, W5, W8, Efv. reflexivity.
+        c_last_apts c_last_atick c_curv c_cura c_params_fit].
+      rewrite W4, W5, W8, W9, Efv. reflexivity.
     + constructor; cbn [m_writer m_codec m_video m_audio m_finished m_last_vpts
         m_last_vdts m_first_vpts m_last_apts m_cur_apts]; try assumption; try congruence.
       auto.
@@ -1460,7 +1536,7 @@ Proof.
 Qed.
 
 Definition with_cur (s : csum) (v a : f64) : csum :=
-  {| c_closed := c_closed s; c_vcount := c_vcount s; c_last_vpts := c_last_vpts s; c_last_vdts := c_last_vdts s;
+  {| c_params_fit := c_params_fit s; c_closed := c_closed s; c_vcount := c_vcount s; c_last_vpts := c_last_vpts s; c_last_vdts := c_last_vdts s;
      c_last_vtick := c_last_vtick s; c_first_vpts := c_first_vpts s; c_last_apts := c_last_apts s;
      c_last_atick := c_last_atick s; c_curv := v; c_cura := a |}.
 
@@ -1475,7 +1551,7 @@ Lemma encode_video_contract b m d ms m' r :
   let v := video_pre b s (c_curv s) (c_curv s) false d (detect_key_c codec (c_vcount s) d) in
   match r with
   | None => v = [] /\
-            abs_csum m' = vupd s (c_curv s) (c_curv s) false (fadd (c_curv s) (fdiv (of_N (u32 ms)) f_1000)) /\
+            abs_csum m' = vupd b s (c_curv s) (c_curv s) false (fadd (c_curv s) (fdiv (of_N (u32 ms)) f_1000)) d /\
             Rep b m'
   | Some e => existsb (fun n => mem n v) (err_names e) = true /\ m' = m
   end.
@@ -1581,6 +1657,9 @@ Lemma finalize_shape w v md f :
   (w_finalized w = false /\ (U16MAX <? vt_width v) || (U16MAX <? vt_height v) = true /\
    w' = w /\ r = FinErr (FinIo IoInvalidInput)) \/
   (w_finalized w = false /\ (U16MAX <? vt_width v) || (U16MAX <? vt_height v) = false /\
+   param_sets_too_long (w_vconfig w) = true /\ w' = w /\ r = FinErr (FinIo IoInvalidInput)) \/
+  (w_finalized w = false /\ (U16MAX <? vt_width v) || (U16MAX <? vt_height v) = false /\
+   param_sets_too_long (w_vconfig w) = false /\
    (exists bw s, w' = with_sink w true bw s) /\
    (r = FinOk \/ r = FinErr (FinIo IoInvalidData) \/ (exists k, r = FinErr (FinIo k) /\ sink_err k) \/
     exists p, r = FinErr (FinPanic p))).
@@ -1588,6 +1667,7 @@ Proof.
   unfold finalize.
   destruct (w_finalized w) eqn:F; [left; auto|].
   destruct ((U16MAX <? vt_width v) || (U16MAX <? vt_height v)) eqn:G; [right; left; auto|].
+  destruct (param_sets_too_long (w_vconfig w)) eqn:G2; [right; right; left; auto|].
   cbv zeta.
   assert (T : term_ok (snd (if f then finalize_fast_start w v md (effective_config w)
                             else finalize_standard w v md (effective_config w)))).
@@ -1598,12 +1678,12 @@ Proof.
     intros T; cbn [snd] in T;
     (destruct (run_plan bufs (w_bytes_written w) (w_sink w)) as [[bw s] e] eqn:R;
      destruct e as [k|];
-     [ right; right; repeat split; eauto; right; right; left; exists k; split; [reflexivity|];
+     [ right; right; right; repeat split; eauto; right; right; left; exists k; split; [reflexivity|];
        eapply run_plan_err; eauto
      | destruct term as [[k|p]|]; cbn [term_ok] in T;
-       [ subst k; right; right; repeat split; eauto
-       | right; right; repeat split; eauto; right; right; right; eauto
-       | right; right; repeat split; eauto ] ]).
+       [ subst k; right; right; right; repeat split; eauto
+       | right; right; right; repeat split; eauto; right; right; right; eauto
+       | right; right; right; repeat split; eauto ] ]).
 Qed.
 
 (** * One step *)
@@ -1647,19 +1727,23 @@ Proof.
   intros HR Hs Hnp. pose proof HR as [Hv Ha Hwa Hwc Hf Hlp Hld Hfp Hap Hca].
   cbn [step] in Hs. unfold finish_in_place_with_stats in Hs.
   unfold call_ok, csum_next. cbn [violated].
-  cbn [abs_csum c_closed]. rewrite Hv.
+  cbn [abs_csum c_closed c_params_fit]. rewrite Hv.
   destruct (m_finished m) eqn:Efin.
   { inversion Hs; subst m' r. rewrite (Hf eq_refl). split; [reflexivity|]. split; [reflexivity|exact HR]. }
   pose proof (finalize_shape (m_writer m) (m_video m) (m_meta m) (m_fast m)) as S.
   destruct (finalize (m_writer m) (m_video m) (m_meta m) (m_fast m)) as [w' fr].
-  destruct S as [(S1 & -> & ->)|[(S1 & S2 & -> & ->)|(S1 & S2 & (bw & sk & ->) & S4)]].
+  destruct S as [(S1 & -> & ->)|[(S1 & S2 & -> & ->)|[(S1 & S2 & S3 & -> & ->)|(S1 & S2 & S3 & (bw & sk & ->) & S4)]]].
   - inversion Hs; subst m' r. rewrite S1. split; [reflexivity|]. split; [reflexivity|].
     apply Rep_after_fin; auto; try discriminate.
   - inversion Hs; subst m' r. rewrite S1.
     replace ((vt_width (m_video m) <=? U16MAX) && (vt_height (m_video m) <=? U16MAX)) with false by lia.
     split; [reflexivity|]. split; [reflexivity|].
     apply Rep_after_fin; auto; try discriminate.
-  - rewrite S1.
+  - inversion Hs; subst m' r. rewrite S1, S3.
+    replace ((vt_width (m_video m) <=? U16MAX) && (vt_height (m_video m) <=? U16MAX)) with true by lia.
+    split; [reflexivity|]. split; [reflexivity|].
+    apply Rep_after_fin; auto; try discriminate.
+  - rewrite S1, S3.
     replace ((vt_width (m_video m) <=? U16MAX) && (vt_height (m_video m) <=? U16MAX)) with true by lia.
     destruct S4 as [->|[->|[(k & -> & Hk)|(p & ->)]]].
     + inversion Hs; subst m' r. split; [reflexivity|]. split; [reflexivity|].
